@@ -55,6 +55,7 @@ THEOREMS = [
     "conv_respects_key",
     "logS_memo_sound",
     "conv_memo_sound",
+    "logS_eq_prefixSum_D",
     "trace_values",
     "proposal_key_complete_partial",
 ]
@@ -876,3 +877,61 @@ def search(ctx, failed_cases, rnd, deadline):
             check(ctx, c, use_model=False)
         except Exception:
             ctx.stat("search_errors")
+
+
+class _OracleOnly:
+    """Minimal ctx for shrinking: keeps oracle failures, ignores everything else, never asks the model."""
+
+    def __init__(self):
+        self.oracle_failures = []
+        self.evaluations = 0
+
+    def stat(self, *a, **k):
+        pass
+
+    def done(self, *a, **k):
+        pass
+
+    def corr_fail(self, *a, **k):
+        pass
+
+    def oracle_fail(self, case, what, site, signature=None, detail=None):
+        self.oracle_failures.append({"case": case, "what": what, "site": site, "signature": signature, "detail": detail})
+
+
+def _still_fails(case, site, signature):
+    c = _OracleOnly()
+    try:
+        check(c, case, use_model=False)
+    except Exception:
+        return None
+    return next((f for f in c.oracle_failures if f["site"] == site and f["signature"] == signature), None)
+
+
+def shrink(failure):
+    """Greedy: drop operations of a history (or iterations / particles of a run) while the same
+    failure (site and signature) persists."""
+    case = failure["case"]
+    kind = case.get("kind")
+    site, sig = failure["site"], failure["signature"]
+    deadline = time.time() + 25
+    best = failure
+    if kind == "run":
+        for key, lo in (("iters", 1), ("burnin", 0), ("particles", 2)):
+            while time.time() < deadline and best["case"][key] > lo:
+                f = _still_fails(dict(best["case"], **{key: best["case"][key] - 1}), site, sig)
+                if not f:
+                    break
+                best = f
+        return best
+    if kind not in ("prop", "logS", "conv"):
+        return failure
+    ops = list(case["ops"])
+    i = len(ops) - 1
+    while i >= 0 and time.time() < deadline:
+        f = _still_fails(dict(case, ops=ops[:i] + ops[i + 1:]), site, sig)
+        if f:
+            ops = ops[:i] + ops[i + 1:]
+            best = f
+        i -= 1
+    return best
